@@ -53,6 +53,7 @@ type optProg struct {
 	tys   []*types.Type
 }
 
+var tOLN = types.Maybe(types.List(types.Num))
 var tLON = types.List(types.Maybe(types.Num))
 var tMSON = types.Map(types.Str, types.Maybe(types.Num))
 var tObjOpt = ObjT([]string{"f", "g"}, []*types.Type{types.Maybe(types.Num), types.Maybe(types.Str)})
@@ -125,6 +126,8 @@ var smuggleProgs = []string{
 	"if(true, [[], [o]][1][0], 0) + 1", "len(if(true, [[], [s]][1][0], \"\"))", "if(c, [o], [])[0] + 1", "if(c, [], [o])[0] + 1",
 	"get([[], [o]], 1, [])[0] + 1", "get([o], 0, 0) + 1", "get([:], k, o) + 1", "[[], [o]][1][0] + 1", "[[], [o]]", "[[:], [k: o]]",
 	"if(c, o, 0) + 1", "[o, 0][0] + 1", "max(o, 1)", "max([o])", "[k: o][k] + 1", "{f: o}.f + 1", "union([o], [1])[0] + 1", "union([], [o])[0] + 1",
+	// one list-typed variable in two fields of the first element, an optional list at the second position of the other
+	"[{a: xs, b: xs}, {a: ys, b: oxs}][1].b[0] + 1", "len([{a: xs, b: xs}, {a: ys, b: oxs}][1].b)", "[k: {a: xs, b: xs}, \"j\": {a: ys, b: oxs}][k].b[0]", "[{a: xs, b: xs}, {a: xs, b: oxs}][1].b[0] + 1",
 	"if(c, o, o) + 1", "get(o, 0) + 1", "get(get([o], 0, o), 0) + 1", "len(get(s, \"\"))", "get([[], [o]][1], 0, o)",
 }
 
@@ -135,8 +138,8 @@ var smuggleProgs = []string{
 func H16_smuggle() {
 	e := Eng()
 	src := smuggleProgs[sv.Choice("prog", len(smuggleProgs))]
-	tys := map[string]*types.Type{"o": tON, "s": types.Maybe(tStr), "c": tBool, "k": tStr}
-	names := []string{"o", "s", "c", "k"}
+	tys := map[string]*types.Type{"o": tON, "s": types.Maybe(tStr), "c": tBool, "k": tStr, "xs": tLN, "ys": types.List(types.Num), "oxs": tOLN}
+	names := []string{"o", "s", "c", "k", "xs", "ys", "oxs"}
 	r := &refEnv{vars: tys}
 	for _, f := range fun.BuiltIn() {
 		r.funs = append(r.funs, f.Type)
@@ -162,7 +165,8 @@ func H16_smuggle() {
 		return
 	}
 	sv.Assert("inferred-type", RefTypeEq(got, want))
-	vals := map[string]*val.Val{"o": AnyVal(tON, "o"), "s": AnyVal(types.Maybe(tStr), "s"), "c": AnyVal(tBool, "c"), "k": val.Str("k")}
+	vals := map[string]*val.Val{"o": AnyVal(tON, "o"), "s": AnyVal(types.Maybe(tStr), "s"), "c": AnyVal(tBool, "c"), "k": val.Str("k"),
+		"xs": val.List(tLN.List(), 0), "ys": val.List(tLN.List(), 0), "oxs": val.Nothing(tLN)}
 	res, c := runAll(e, expr, vals, names)
 	for b := 0; b < NBackends; b++ {
 		sv.Assert("never-fails-because-of-absence:"+BackendNames[b], c[b] == "ok" || IsOutOfRange(c[b]) || IsUndefinedKey(c[b]))
